@@ -646,6 +646,8 @@ CONF["conflict"] = {"appendEntriesBatchSizeBytes": 2 ** 16}
 
 def _work(args):
     repo, item, base_seed, deadline, tmp = args
+    if time.time() > deadline and item[0] != "base":
+        return []
     os.makedirs(tmp, exist_ok=True)
     out = []
     try:
@@ -701,7 +703,7 @@ def plan(ctx):
 def run(ctx):
     t0 = time.time()
     items = plan(ctx)
-    deadline = t0 + ctx.scale(17.0, 330.0)
+    deadline = t0 + ctx.scale(17.0, 270.0)
     root = ctx.tmpdir()
     args = [(ctx.repo, it, ctx.seed, deadline, os.path.join(root, "w%d" % n)) for n, it in enumerate(items)]
     results = []
@@ -751,7 +753,7 @@ def assemble(ctx, results, t0, planned, skipped):
                 "other": {k: v for k, v in sorted(cov.items()) if not (k.startswith("crash:") and "|" in k) and not k.startswith("ev:")}}
     out = {"cases": probes, "distinct": len(hashes), "coverage": coverage, "samples": samples, "disagreements": [],
            "violations": viols, "wall_s": round(time.time() - t0, 2),
-           "notes": "planned schedules %d, run %d, skipped by deadline %d" % (planned, len(results), skipped)}
+           "notes": "planned schedules %d, run %d, cut by the deadline %d" % (planned, len(results), planned - len(results))}
     if ctx.pid == "C06":
         need = ["journal.record-store", "journal.header-store", "meta.tmp-write", "meta.move", "dump.tmp-write", "dump.rename",
                 "snapin.tmp-write", "snapin.rename"]
@@ -779,9 +781,10 @@ def replay(ctx, violation):
     try:
         r = CrashRunner(ctx.repo, rp["spec"], tmp)
         try:
+            want = violation.get("signature")
             for e in rp["events"]:
                 r.ev(*e)
-                if r.crash_viol or r.viol:
+                if any(v["signature"] == want for v in r.crash_viol + r.viol):
                     break
         finally:
             r.close()
